@@ -96,12 +96,16 @@ func checkLex(r *Report, p *Program, rule, construct string, fn *ssa.Function, k
 		rec = func(i int) {
 			if i == k {
 				covered++
+				v := []string{}
+				for j, s := range signs {
+					v = append(v, comps[j]+":"+map[int]string{-1: "<", 0: "=", 1: ">"}[s])
+				}
+				vec := strings.Join(v, ",")
 				if lexWant(kind, signs) != res {
-					v := []string{}
-					for j, s := range signs {
-						v = append(v, comps[j]+":"+map[int]string{-1: "<", 0: "=", 1: ">"}[s])
-					}
-					bad = fmt.Sprintf("for (%s) the function returns %v, the calendar order says %v", strings.Join(v, ","), res, !res)
+					bad = fmt.Sprintf("for (%s) the function returns %v, the calendar order says %v", vec, res, !res)
+					r.Bad(rule+"v", construct+":("+vec+")", p.Pos(fn.Pos()), bad)
+				} else {
+					r.OK(rule+"v", construct+":("+vec+")", p.Pos(fn.Pos()), fmt.Sprintf("verdict %v = lexicographic order", res), true)
 				}
 				return
 			}
@@ -128,6 +132,8 @@ func RuleOrder(r *Report, p *Program, tier string) {
 	r.Rule("O1", "Date.Before/After/Equals equal lexicographic <, >, = on (year, month, day) for all 27 sign vectors", 3)
 	r.Rule("O2", "HHmm.Before/After/Equals equal lexicographic <, >, = on (hours, minutes) for all 9 sign vectors", 3)
 	r.Rule("O3", "DateTime.Before compares the whole-second timestamps of both operands with <", 1)
+	r.Rule("O1v", "one obligation per (Date comparison, sign vector of (year, month, day))", 81)
+	r.Rule("O2v", "one obligation per (HHmm comparison, sign vector of (hours, minutes))", 27)
 	dateLeaf := func(c, o string) string { return "(time.Time)." + c + "(" + o + ")" }
 	for _, k := range []struct{ m, kind string }{{"Before", "before"}, {"After", "after"}, {"Equals", "equals"}} {
 		checkLex(r, p, "O1", "types.Date."+k.m, p.Func("types", "Date."+k.m), k.kind, []string{"Year", "Month", "Day"}, dateLeaf, false)
